@@ -109,6 +109,20 @@ func debugRun(args []string) {
 			if r := recover(); r != nil {
 				if ee, ok := r.(*sx.EngineError); ok {
 					fmt.Println("ENGINE ERROR:", ee.Msg)
+					if os.Getenv("GOSMT_PROFTERMS") != "" {
+						type kv struct {
+							k string
+							v int
+						}
+						var l []kv
+						for k, v := range x.TermProf {
+							l = append(l, kv{k, v})
+						}
+						sort.Slice(l, func(i, j int) bool { return l[i].v > l[j].v })
+						for i := 0; i < 12 && i < len(l); i++ {
+							fmt.Printf("TERMS %8d %s\n", l[i].v, l[i].k)
+						}
+					}
 					os.Exit(2)
 				}
 				panic(r)
